@@ -13,6 +13,8 @@
  *   begin <id> size=<n> container=<0|1|2> pol=<seekpast>,<partial>,<chunk>
  *   L <entry> <rc> [<tables> <md5> <seq> <pcm> <type hex>] opens=<n> <first path hex>    entry: path file mem cb mem2 (mem2 = memory again over a differently filled stack)
  *   T <entry> <rc> <name hex> <type hex> opens=<n> <first path hex>
+ *   further entries fck fmem ftmp ftmpr: the FILE entry points over other kinds of stdio stream (see open_kind);
+ *   P L|T <0|1>: the cookie stream was asked for a position beyond the end during the load / test
  * opens = fopen/opendir calls made by the library during the call (companion files, temp files).
  *   end <id>
  * <tables> digest of every table of the loaded module (header fields, orders,
@@ -21,8 +23,12 @@
  * <seq> digest of the sequence table, <pcm> digest of the first nframes frames
  * (buffer bytes + position info).
  */
+#ifndef _GNU_SOURCE
+#define _GNU_SOURCE		/* fopencookie, fmemopen */
+#endif
 #include "vcommon.h"
 #include <unistd.h>
+#include <sys/types.h>
 #include <xmp.h>
 #include "common.h"
 #include "hio.h"
@@ -317,12 +323,86 @@ static int is_container(const char *path, const unsigned char *buf, long size)
 	return c;
 }
 
+/* Other kinds of FILE the C library can produce for the same bytes (the FILE entry points take any stream):
+ *   fck    fopencookie() stream with read/seek functions that behave like a regular file (seeking beyond the
+ *          end is allowed, reads there return nothing); it has no file descriptor.  `past` records whether the
+ *          library asked for a position beyond the end.
+ *   fmem   fmemopen() over the buffer: no descriptor either; it REFUSES seeks beyond the end, so it is compared
+ *          only when the fck run saw no such seek.
+ *   ftmp   a "w+b" file just written by the harness with one fwrite into a buffer large enough to hold it all,
+ *          handed over WITHOUT fflush or rewind (the library positions the stream itself);
+ *   ftmpr  the same, rewound (which flushes).
+ * Not included: non-seekable streams (pipes, FIFOs) — the size is found by seeking, the documentation promises
+ * nothing for them; a stream positioned inside a larger file — the library loads from absolute offset 0 and sizes
+ * the whole file, the documentation ("on return the stream position is undefined") does not offer embedded loads. */
+struct ckstate {
+	const unsigned char *data;
+	long size, pos;
+	int past;
+};
+
+static ssize_t ck_read(void *c, char *out, size_t n)
+{
+	struct ckstate *k = (struct ckstate *)c;
+	size_t avail = k->pos < k->size ? (size_t)(k->size - k->pos) : 0;
+	if (n > avail)
+		n = avail;
+	memcpy(out, k->data + k->pos, n);
+	k->pos += (long)n;
+	return (ssize_t)n;
+}
+
+static int ck_seek(void *c, off64_t *offset, int whence)
+{
+	struct ckstate *k = (struct ckstate *)c;
+	long tg = whence == SEEK_SET ? (long)*offset : whence == SEEK_CUR ? k->pos + (long)*offset : k->size + (long)*offset;
+	if (tg < 0)
+		return -1;
+	if (tg > k->size)
+		k->past = 1;
+	k->pos = tg;
+	*offset = tg;
+	return 0;
+}
+
+static const char *const kind_name[] = { "fck", "fmem", "ftmp", "ftmpr" };
+#define NKINDS 4
+
+static FILE *open_kind(int kind, struct ckstate *ck, const unsigned char *buf, long size, const char *path2)
+{
+	static const cookie_io_functions_t io = { ck_read, NULL, ck_seek, NULL };
+	FILE *f;
+
+	switch (kind) {
+	case 0:
+		ck->data = buf;
+		ck->size = size;
+		ck->pos = 0;
+		ck->past = 0;
+		return fopencookie(ck, "rb", io);
+	case 1:
+		return fmemopen((void *)buf, (size_t)size, "rb");
+	default:
+		f = __real_fopen(path2, "w+b");
+		if (!f)
+			return NULL;
+		setvbuf(f, NULL, _IOFBF, (size_t)size + 8192);
+		if (fwrite(buf, 1, (size_t)size, f) != (size_t)size) {
+			fclose(f);
+			return NULL;
+		}
+		if (kind == 3)
+			rewind(f);
+		return f;
+	}
+}
+
 static int run_case(const char *id, const char *src, long trunc, int nedits, char **edits, const char *tmpdir,
 		    uint64_t seed)
 {
 	unsigned char *buf, *e;
 	long size = 0, cap, i;
-	char tmppath[4096];
+	char tmppath[4096], tmppath2[4200];
 	const char *base;
 	struct cbstate cst;
 	struct xmp_test_info ti;
@@ -424,6 +504,25 @@ static int run_case(const char *id, const char *src, long trunc, int nedits, cha
 	stack_pat = 0x11;
 	xmp_free_context(ctx);
 
+	for (k = 0; k < NKINDS; k++) {
+		struct ckstate ck;
+		snprintf(tmppath2, sizeof(tmppath2), "%s/w+%s", tmpdir, base);
+		f = open_kind(k, &ck, buf, size, tmppath2);
+		if (!f) {
+			printf("L %s nostream opens=0 -\n", kind_name[k]);
+			continue;
+		}
+		ctx = xmp_create_context();
+		LIB(rc = xmp_load_module_from_file(ctx, f, size));
+		report_load(kind_name[k], ctx, rc);
+		xmp_free_context(ctx);
+		if (k == 0)
+			printf("P L %d\n", ck.past);
+		fclose(f);
+		if (k >= 2)
+			unlink(tmppath2);
+	}
+
 	memset(&ti, 0, sizeof(ti));
 	LIB(rc = xmp_test_module(tmppath, &ti));
 	report_test("path", rc, &ti);
@@ -448,6 +547,24 @@ static int run_case(const char *id, const char *src, long trunc, int nedits, cha
 	LIB(rc = xmp_test_module_from_memory(buf, size, &ti));
 	report_test("mem2", rc, &ti);
 	stack_pat = 0x11;
+
+	for (k = 0; k < NKINDS; k++) {
+		struct ckstate ck;
+		snprintf(tmppath2, sizeof(tmppath2), "%s/w+%s", tmpdir, base);
+		f = open_kind(k, &ck, buf, size, tmppath2);
+		if (!f) {
+			printf("T %s nostream opens=0 -\n", kind_name[k]);
+			continue;
+		}
+		memset(&ti, 0, sizeof(ti));
+		LIB(rc = xmp_test_module_from_file(f, &ti));
+		report_test(kind_name[k], rc, &ti);
+		if (k == 0)
+			printf("P T %d\n", ck.past);
+		fclose(f);
+		if (k >= 2)
+			unlink(tmppath2);
+	}
 
 	printf("end %s\n", id);
 	fflush(stdout);
